@@ -111,6 +111,52 @@ def out (s : State) (r : St × Res) : State × String :=
   let s' := { s with st := r.1 }
   (s', showRes r.2 ++ " " ++ showState s')
 
+/-! ### `any`: a contract's protobuf dispatch.  Prefix notation, tokens separated by `;`, fields by `,`:
+  `x,<grantee>,<n>` followed by its `n` messages (an `authz.MsgExec`)
+  `c,<signer>,<creator>,<subdenom>`           `m|b,<signer>,<creator>,<denom>,<amount>`
+  `a,<signer>,<creator>,<denom>,<newadmin>`   `s,<signer>,<creator>,<denom>,<mdok>,<tag>` -/
+
+def parseTf? : List String → Option TfMsg
+  | ["c", sg, c, sub] => do pure (.create (← parseNat? sg) (← parseNat? c) (← parseDenom? sub))
+  | ["m", sg, c, d, amt] => do pure (.mint (← parseNat? sg) (← parseNat? c) (← parseDenom? d) (← parseInt? amt))
+  | ["b", sg, c, d, amt] => do pure (.burn (← parseNat? sg) (← parseNat? c) (← parseDenom? d) (← parseInt? amt))
+  | ["a", sg, c, d, new] => do pure (.chadmin (← parseNat? sg) (← parseNat? c) (← parseDenom? d) (← parseAddrArg? new))
+  | ["s", sg, c, d, ok, tag] => do
+    pure (.setmeta (← parseNat? sg) (← parseNat? c) (← parseDenom? d) (← parseBool? ok) (← parseNat? tag))
+  | _ => none
+
+mutual
+def parseItem? : Nat → List String → Option (PMsg × List String)
+  | 0, _ => none
+  | _, [] => none
+  | fuel + 1, tok :: rest =>
+    match tok.splitOn "," with
+    | ["x", g, n] => do
+      let g ← parseNat? g
+      let n ← parseNat? n
+      let r ← parseMany? fuel n rest
+      pure (.exec g r.1, r.2)
+    | fs => (parseTf? fs).map fun m => (.tf m, rest)
+def parseMany? : Nat → Nat → List String → Option (PMsgs × List String)
+  | 0, _, _ => none
+  | _ + 1, 0, rest => some (.nil, rest)
+  | fuel + 1, n + 1, rest => do
+    let r1 ← parseItem? fuel rest
+    let r2 ← parseMany? fuel n r1.2
+    pure (.cons r1.1 r2.1, r2.2)
+end
+
+def parseAny? (s : String) : Option PMsg :=
+  let toks := s.splitOn ";"
+  match parseItem? (2 * toks.length + 2) toks with
+  | some (m, []) => some m
+  | _ => none
+
+/-- a dispatch is answered `ok` / `rej` (which of the layers refused it is not compared) -/
+def outAny (s : State) (r : St × Res) : State × String :=
+  let s' := { s with st := r.1 }
+  (s', (if r.2 = .ok then "ok" else "rej") ++ " " ++ showState s')
+
 /-! ### `reset` arguments -/
 
 def splitSemi (s : String) : List String :=
@@ -153,7 +199,8 @@ def mkGenesis (fee : Nat) (bals : List (Addr × Denom × Nat)) (grants : List (A
   `wmint <contract> <denom> <amount> <to>`        `wburn <contract> <denom> <amount> <from>`
   `wchadmin <contract> <denom> <newadmin>`         `wsetmeta <contract> <denom> <-|base> <body> <mdok> <tag>`
   (`base` = `metadata.base`, `body` = `metadata.display` = `metadata.denom_units[0].denom`)
-  `send <from> <to> <denom> <amount>`              `grant|revoke <granter> <grantee>` -/
+  `send <from> <to> <denom> <amount>`              `grant|revoke <granter> <grantee>`
+  `any <contract> <message tree>`  (the contract dispatches a protobuf message — `CosmosMsg::Any` — see `parseAny?`) -/
 def step (s : State) (args : List String) : State × String :=
   match args with
   | ["reset", fee, bals, grants, nat, watch, light] =>
@@ -213,6 +260,10 @@ def step (s : State) (args : List String) : State × String :=
     match parseNat? a, parseNat? b, parseDenom? d, parseInt? amt with
     | some a, some b, some d, some amt => out s (Paloma.TokenFactory.step s.st (.send a b d amt))
     | _, _, _, _ => (s, "bad-op")
+  | ["any", a, tree] =>
+    match parseNat? a, parseAny? tree with
+    | some a, some m => outAny s (anyStep s.st a m)
+    | _, _ => (s, "bad-op")
   | ["reimport"] =>
     -- genesis export, wipe, import of the token factory: nothing the property speaks about may change
     out s (Paloma.TokenFactory.reimport s.st, .ok)
